@@ -3,7 +3,7 @@ every step; law of each edit checked on the physical projections."""
 import json, os
 import vlib, gl, session
 
-ALL_TEMPLATES = '{"tri2d", "trav2d", "dist2d", "polar3d", "vec3d", "lev1d", "free2d"}'
+ALL_TEMPLATES = '{"tri2d", "trav2d", "dist2d", "polar3d", "vec3d", "lev1d", "free2d", "fstat3d", "fstat2d"}'
 
 
 def generate(ctx, name, consts, timeout=1500, simulate=None):
@@ -34,7 +34,7 @@ def base_survey(net):
     return sv
 
 
-def run_sessions(ctx, sessions, truth=True, laws=True, algs=None, kind="plain", tolc=3e-6, sigprefix=""):
+def run_sessions(ctx, sessions, truth=True, laws=True, algs=None, kind="plain", tolc=3e-6, sigprefix="", each=None):
     """returns stats; violations are reported through ctx"""
     vlib.build(kind, ["gama-local"])
     steps = []          # (session index, step index, survey, edit or None)
@@ -71,6 +71,8 @@ def run_sessions(ctx, sessions, truth=True, laws=True, algs=None, kind="plain", 
         def report(chk, msg, tag=tag, job=job, si=si, k=k, e=e):
             ctx.violation(sigprefix + "%s|%s" % (chk, tag), "session %d step %d (%s): %s" % (si, k, json.dumps(e) if e else "base network", msg),
                           replay={"gkf": job["gkf"], "args": job["args"], "session": sessions[si]})
+        if each is not None and run.res is not None:
+            each(run.res, sv, report)
         if truth and net["noise"] == 0 and P is not None and (e is None or law["coords"] in ("same", "shift", "axes", "rename", "truth")):
             st["truth_checks"] += 1
             if P.get("outcome") != "adjusted":
